@@ -405,7 +405,9 @@ pub fn c12(a: &Args) {
     for t in 0..n_pairs {
         let mut r = rng(seed, 123_000 + t as u64);
         let fa = &fonts[if t % 2 == 0 { 0 } else { r.gen_range(0..fonts.len()) }];
-        let fb = &fonts[r.gen_range(0..fonts.len())];
+        // every other pair mixes glyph heights (a blank is painted over the rows of ITS page's box)
+        let other_h: Vec<usize> = (0..fonts.len()).filter(|&k| fonts[k].font.size.height != fa.font.size.height).collect();
+        let fb = if t % 4 < 2 && !other_h.is_empty() { &fonts[other_h[r.gen_range(0..other_h.len())]] } else { &fonts[r.gen_range(0..fonts.len())] };
         let slot_b = *[1usize, 2, 5, 17, 27, 42].choose(&mut r).unwrap();
         let table = Table { slots: vec![(0, fa), (slot_b, fb)] };
         emit_table(&mut out, &table, "pages");
@@ -426,6 +428,14 @@ pub fn c12(a: &Args) {
                     let (Some(ga), Some(gb)) = (pick(&mut r, pa), pick(&mut r, pb)) else { continue };
                     pair(&mut cells, &mut r, ga, gb, rep % 2 == 1);
                 }
+            }
+        }
+        // a plain blank (and the other blank-looking codes) next to a glyph of the other page, in both orders, on both pages
+        for &g in &[32u32, 0, 255] {
+            for rep in 0..6 {
+                let (Some(ga), Some(gb)) = (pick(&mut r, &fa.mixed), pick(&mut r, &fb.mixed)) else { continue };
+                pair(&mut cells, &mut r, ga, g, rep % 2 == 1);
+                pair(&mut cells, &mut r, g, gb, rep % 2 == 0);
             }
         }
         // the same code on both pages where its class differs
